@@ -18,6 +18,9 @@ def graph_case(rnd, max_nodes=5, max_t=6, max_edges=12, selfloops=0.1):
         t = rnd.randint(0, T)
         e = None if rnd.random() < 0.75 else t + rnd.randint(1, 3)
         hist.append(('add', 0, u, v, t, e))
+    # snapshot ids of different widths / signs (the DAG encodes them in strings)
+    sh = rnd.choice([0, 0, 0, 7, 8, -3, -2, 96])
+    hist = [(o[0], o[1], o[2], o[3], o[4] + sh, None if o[5] is None else o[5] + sh) for o in hist]
     hist.sort(key=lambda o: o[4])
     if not hist:
         hist = [('add', 0, 1, 2, 0, None)]
